@@ -60,6 +60,14 @@ CHECKS = {
    technique="exhaustive enumeration of (min, max) over a boundary set B x B (+ MIN/MAX, extensible) through the real front end and generator, compared with an independent narrowest-type function and the generated accessor bodies",
    text="B = {0, +-1, +-2, +-100, +-1000} and +-2^k + d, d in -2..2 (94 values quick, 620 thorough = every k <= 63): every (min <= max) in B x B, (MIN..b), (a..MAX), (MIN..MAX), the unconstrained INTEGER, each plain and extensible, as a top-level type and as a SEQUENCE field: 9 688 (quick) / 775 006 (thorough) definitions. The RustType of the model must be the narrowest standard integer type of the right signedness (64-bit if extensible) and value_min()/value_max() (f_min()/f_max()) must return the declared literal bounds.",
    note="Known findings KF-C15-MIN / KF-C15-UNCONSTRAINED are listed class by class (no wildcard), so e.g. (MIN..negative, ...) - which is right today - stays checked."),
+ "C07": dict(engine="e_front", category="model_checking", design="4.3, 5/C07",
+   technique="bounded-exhaustive enumeration of abstract modules of grammar F, each printed in three layouts, parsed and resolved by the real front end and compared through a canonical projection of the resulting model",
+   text="332 leaf forms (every INTEGER bound class incl. MIN/MAX/extensible, ENUMERATED forms, every SIZE form x BIT/OCTET STRING and the five string types in both SIZE spellings, named numbers/bits, references) x 5 tag forms x 11 component contexts + SEQUENCE OF / SET OF with every SIZE form and spelling; module OIDs in all three component forms, imports, module names, value definitions and DEFAULT literals of every kind, definition order; all depth-2 nestings of 7 containers over 7 leafs: 33 212 (quick) / 43 612 (thorough) modules x 3 layouts (compact, one item per line, commented). project(resolve(parse(text))) must equal the abstract module: definitions in order, kinds, names, ranges with MIN/MAX distinct from literals, named numbers, SIZE with extensibility, tags with class, OPTIONAL/DEFAULT with literal, marker position, imports, OID.",
+   note="Normalisations applied to the expected side only: SIZE(n..n) = SIZE(n), SIZE(0..MAX) = none, (MIN..MAX) = none, SIZE spelling, documented module-name suffix stripping. Known findings KF-C07-MARKER-FIRST, KF-C07-ZERO-MAX."),
+ "C12": dict(engine="e_front", category="model_checking", design="5/C12",
+   technique="deviation-bounded exhaustive search: every subset of literal sites replaced by value references x every placement of the value definitions x every load order, resolved by the real MultiModuleResolver in worker processes and compared with the all-literal module through the C07 projection",
+   text="18 base schemas (INTEGER bounds incl. 0 and i64::MAX next to MAX, SIZE lower/upper/fixed/equal/extensible in both spellings and on SEQUENCE OF / SET OF, DEFAULT of INTEGER/BOOLEAN/string, nested types); every subset of <= 2 (quick) / all (thorough) sites; 8 placements (same module before/after use, sibling by name, by OID, by OID with a same-name decoy module of another OID, local definition shadowing an import, differently spelled OID, unrelated module defining the same names); every permutation of the load order. Negative space: undefined / not exported / BOOLEAN or string where an integer is needed must give a resolve error in every order.",
+   note="Runs in worker processes because a wrong import match can recurse without bound (stack overflow = abort), which is then attributed to the case instead of killing the check."),
 }
 
 NOT_YET = {
